@@ -199,7 +199,7 @@ impl Property for C09 {
                     if !ops.is_empty() {
                         o.label("with-ops");
                     }
-                    if !cfg.files.is_empty() || cfg.signer.is_some() || ops.iter().any(|x| matches!(x, Op::Sign(_))) {
+                    if !cfg.files.is_empty() || cfg.signer.is_some() || ops.iter().any(|x| matches!(x, Op::Sign(_) | Op::SignNow(_))) {
                         o.nontrivial_key(fnv1a(serde_json::to_string(case).unwrap_or_default().as_bytes()));
                     }
                     let b = build_and_write(cfg)?;
